@@ -187,7 +187,7 @@ def run_check(prop, tier, seed, out=sys.stdout):
         if v['class_key'] in reported:
             continue
         case = v.get('case') or r.get('case')
-        if len(reported) < 4:
+        if len(reported) < 4 and not os.environ.get('VERIF_NO_SHRINK'):
             path, note = minimise_and_verify(prop, case, v, shadow_dir)
         else:
             # many distinct classes: report the rest as found
